@@ -30,7 +30,9 @@ MANIFEST = dict(
          "log is cut one snapshot behind) restarts, for every history, all compaction points and all four combinations, to a "
          "state equivalent to the one that ran the history (component premises as in C01); tied to the code by the journal "
          "of REAL compactions (restart suite under the shim): the catalogue is never rewritten while the new file is being "
-         "written, the pointer written points at the previous snapshot, only older snapshot files are removed.",
+         "written, the pointer written points at the previous snapshot, only older snapshot files are removed; and by crash "
+         "IMAGES taken inside the compaction windows of that journal and restarted by a real node (restart-child): the node "
+         "must serve the state after a prefix of the history that contains every request applied before the kill.",
     note="proof, partial. Not covered by a theorem: crash images of delete-from (strip_log_to) — they are replayed "
          "exhaustively on the real code and on the model for the generated histories (the three defects found this way are "
          "repaired) and enumerated for one concrete history in RaftLog/LogCrashExamples.v; rollover across log files and the "
@@ -535,6 +537,26 @@ def run(chk, replay=None):
                          "runs): do_build_snapshot saves the catalogue right after that answer, so a kill in the window leaves a catalogue "
                          "naming an incomplete snapshot file" % (r0.get("at_ack"), r0.get("want"), len(short), len(fa)),
                          {"suite": "snapfile", "case": {"k": "flush_ack", "n": 5, "size": 200000}, "impl": r0})
+        # crash images INSIDE compaction windows, restarted by a real node (what crash_restart states, on the real code)
+        from checks import c04_images
+        import sys as _sys
+        n_img = 0
+        for ci in range(1 if quick else 4):
+            b = os.path.join(base, "cimg%d" % ci)
+            os.makedirs(b)
+            try:
+                ccase, cj, cjobs, couts, cbad, cstats = c04_images.crash_images(_sys.modules[__name__], rng, b, 16 if quick else 48)
+            except AssertionError as ex:
+                chk.violation("restart suite under crashfs failed: %s" % str(ex)[:200], {"broken": "harness"}, False)
+                continue
+            n_img += len(cjobs)
+            for pnt, what in cbad:
+                chk.classify("compaction-crash-image",
+                             "a node killed during a compaction (after file mutation #%d of the observed journal) and restarted: %s" % (pnt, what),
+                             {"suite": "restart under crashfs + restart-child", "case": ccase, "journal_prefix": pnt,
+                              "journal_tail": [[m[0], m[1].split("/data/")[-1]] + ([m[2]] if len(m) > 2 and not isinstance(m[2], bytes) else [])
+                                               for m in cj[max(0, pnt - 12):pnt]]})
+        chk.cov["compaction_crash_images_restarted"] = n_img
         chk.cov["compactions_in_model_stage_order"] = sum(compaction_stage_order(chk, rng, os.path.join(base, "cmp%d" % i))
                                                           for i in range(1 if quick else 6))
     finally:
